@@ -1,4 +1,9 @@
+#![allow(dead_code)]
 pub mod core;
+pub mod dump;
+pub mod exec;
 pub mod model;
 pub mod rng;
 pub mod runner;
+pub mod simfs;
+pub mod stream;
